@@ -1,9 +1,15 @@
 #!/bin/bash
-# usage: tools/seedsweep.sh [tier]  — run every seeded change against the check of its property; prints one line per change.
-# Expected: rc=1 (caught) for all but the changes whose meta.json says they are equivalent on the repaired tree.
-tier="${1:-quick}"
+# usage: tools/seedsweep.sh [tier] [lanes]  — run every seeded change (seeded/*/patch.diff) and every hand-written
+# mutant (mutants/<ID>/*.diff) against the check of its property; one line per change. Expected: rc=1 (caught) for all
+# but the changes whose meta.json says they are equivalent on the repaired tree (and mutants/C19/no_count_dec.diff).
+tier="${1:-quick}"; lanes="${2:-3}"
 cd /verif
-for d in seeded/*/; do
-  p=$(python3 -c "import json;print(json.load(open('$d/meta.json'))['property'])")
-  tools/mutant.sh "$d/patch.diff" "$p" "$tier" 2>&1 | tail -1
-done
+{
+  for d in seeded/*/; do
+    p=$(python3 -c "import json;print(json.load(open('$d/meta.json'))['property'])")
+    echo "$d/patch.diff $p"
+  done
+  for f in mutants/*/*.diff; do
+    echo "$f $(basename $(dirname $f))"
+  done
+} | xargs -P "$lanes" -L 1 bash -c 'tools/mutant.sh "$0" "$1" '"$tier"' 2>&1 | tail -1'
